@@ -597,7 +597,8 @@ pub fn emit_case(ctx: &mut Ctx, shrunk: &mut BTreeMap<String, u32>, target: Targ
 			let sig = json!({"kind": k, "container": target.name(), "dedup": dedup, "leaves": oc.leaves});
 			let n = shrunk.entry(sig.to_string()).or_insert(0);
 			*n += 1;
-			let (small, msg) = if *n <= 2 {
+			// layout deviations (known findings) need no minimisation
+			let (small, msg) = if *n <= 2 && !k.starts_with("layout-") {
 				let s = shrink(set, |t| run_case(ctx, target, fmt, comp, t).failure.map_or(false, |f| f.0 == k));
 				let m = run_case(ctx, target, fmt, comp, &s).failure.map(|f| f.1).unwrap_or(msg);
 				(s, m)
@@ -653,6 +654,41 @@ pub fn gen_set(rng: &mut Rng, kind: &str) -> Set {
 			for x in 0..w {
 				for y in 0..h {
 					tiles.insert((z, (x0 + x) as u32, (y0 + y) as u32), rng.pick(&pool).clone());
+				}
+			}
+		}
+		"additive" => {
+			// many tiny tiles whose lengths are additively related (offset differences coincide with lengths), in a
+			// dense box: the source streams row-major, PMTiles sorts by Hilbert id, so directory neighbours are
+			// usually NOT neighbours in the file; the second variant straddles the 256 grid for versatiles
+			let family = rng.below(5);
+			let mut k = 0u64;
+			let (a0, b0) = (rng.range(1, 7), rng.range(1, 9));
+			let mut fib = (a0, b0);
+			let mut next_len = |rng: &mut Rng| -> usize {
+				k += 1;
+				(match family {
+					0 => rng.range(1, 6),
+					1 => *rng.pick(&[10u64, 20, 30]),
+					2 => (k % 7 + 1) * a0,
+					3 => {
+						let n = fib.0 + fib.1;
+						fib = (fib.1, if n > 60 { a0 } else { n });
+						fib.0
+					}
+					_ => *rng.pick(&[1u64, 2, 3, 5, 8, 13]),
+				}) as usize
+			};
+			let z = if rng.chance(1, 3) { rng.range(9, 11) as u8 } else { rng.range(1, 6) as u8 };
+			let side = (1u64 << z).min(rng.range(2, 16));
+			let (x0, y0) = if z >= 9 { (256 - side / 2, 256 - (side / 2).min(3)) } else { (rng.below((1 << z) - side + 1), rng.below((1 << z) - side + 1)) };
+			let h = if z >= 9 { side.min(6) } else { side };
+			for x in 0..side {
+				for y in 0..h {
+					if z < 3 || rng.chance(9, 10) {
+						let n = next_len(rng);
+						tiles.insert((z, (x0 + x) as u32, (y0 + y) as u32), rng.bytes(n));
+					}
 				}
 			}
 		}
@@ -808,7 +844,7 @@ pub fn run(args: &Args) {
 	self_test().expect("independent Hilbert implementation self test");
 	let mut ctx = c16::new_ctx(args, "c01-scratch");
 	let mut shrunk: BTreeMap<String, u32> = BTreeMap::new();
-	ctx.out.rule = "tile sets (single tile; sparse clusters; dense boxes; zoom gaps; both sides of the 256 grid at zoom 9–12 with x or y in {254,255,256,257,511,512}; duplicate payloads and sizes 999/1000/1001 around the de-duplication threshold; a few hundred tiles; 130×130 = 16900 tiles at zoom 8 so that PMTiles needs leaf directories (one PMTiles case in the quick tier, five targets in the thorough tier); a third of the sets with a pyramid widened beyond the tiles) written with every real writer: the first set with ALL 30 (format, compression) pairs per target (incl. the pairs a target cannot express: Err is fine, a silent change is a failure), later sets with rotating pairs (versatiles 3, pmtiles 3, mbtiles 2, tar 2, directory 2 per set). Payloads are opaque bytes. A case is non-trivial when the set has ≥ 2 tiles and the writer succeeded; distinct by request text".into();
+	ctx.out.rule = "tile sets (single tile; sparse clusters; dense boxes; zoom gaps; both sides of the 256 grid at zoom 9–12 with x or y in {254,255,256,257,511,512}; duplicate payloads and sizes 999/1000/1001 around the de-duplication threshold; dense boxes of tiny tiles with additively related lengths (1..6, {10,20,30}, arithmetic progressions, Fibonacci-like) streamed row-major, i.e. not in tile-id order; a few hundred tiles; 130×130 = 16900 tiles at zoom 8 so that PMTiles needs leaf directories (one PMTiles case in the quick tier, five targets in the thorough tier); a third of the sets with a pyramid widened beyond the tiles) written with every real writer: the first set with ALL 30 (format, compression) pairs per target (incl. the pairs a target cannot express: Err is fine, a silent change is a failure), later sets with rotating pairs (versatiles 3, pmtiles 3, mbtiles 2, tar 2, directory 2 per set). Payloads are opaque bytes. A case is non-trivial when the set has ≥ 2 tiles and the writer succeeded; distinct by request text".into();
 	if let Some(p) = &args.replay {
 		for line in std::fs::read_to_string(p).unwrap().lines() {
 			let line = line.trim_end();
@@ -835,11 +871,32 @@ pub fn run(args: &Args) {
 			emit_case(&mut ctx, &mut shrunk, t, *f, *c, &first, "first");
 		}
 	}
+	// 1b. the smallest additive coincidence: zoom 1, row-major lengths 10, 20, 30 (10 + 20 = 30), Hilbert order differs
+	{
+		let mut t = TileMap::new();
+		for (c, n) in [((1u8, 0u32, 0u32), 10usize), ((1, 1, 0), 20), ((1, 0, 1), 30), ((1, 1, 1), 7)] {
+			t.insert(c, (0..n).map(|k| (k + n) as u8).collect());
+		}
+		let set = Set::exact(t);
+		for (tg, f, c) in [(Target::P, Fmt::Png, Comp::None), (Target::P, Fmt::Pbf, Comp::Gzip), (Target::V, Fmt::Png, Comp::None)] {
+			emit_case(&mut ctx, &mut shrunk, tg, f, c, &set, "additive");
+		}
+	}
 	// 2. generated sets with rotating pairs
-	let kinds_quick = ["single", "sparse", "dense", "zoomgap", "grid", "threshold", "hundreds", "sparse", "grid", "threshold"];
+	let kinds_quick = ["single", "sparse", "dense", "additive", "zoomgap", "grid", "threshold", "additive", "hundreds", "sparse", "grid", "additive", "threshold"];
 	let n = args.n(80, 400);
 	let mut rot = 0usize;
+	// bin/check re-runs the harness with seed + 1000 / + 2000 (thorough tier) to search for a failing input after a
+	// broken correspondence: such search runs (seed ≥ 1000) get a wall-clock budget so that the whole check stays short
+	let t_start = std::time::Instant::now();
+	let search_run = args.seed >= 1000;
+	if search_run {
+		ctx.out.notes.push("search run (seed ≥ 1000): generation stops after 25 s".into());
+	}
 	for i in 0..n {
+		if search_run && t_start.elapsed().as_secs() >= 25 {
+			break;
+		}
 		let kind = kinds_quick[i % kinds_quick.len()];
 		let set = gen_set(&mut rng, kind);
 		for k in 0..3 {
@@ -863,7 +920,7 @@ pub fn run(args: &Args) {
 		let set = gen_set(&mut rng, "leaves");
 		emit_case(&mut ctx, &mut shrunk, Target::P, Fmt::Png, Comp::Gzip, &set, "leaves");
 	}
-	if args.thorough() {
+	if args.thorough() && !search_run {
 		for _ in 0..2 {
 			let set = gen_set(&mut rng, "leaves");
 			for (t, f, c) in [(Target::P, Fmt::Pbf, Comp::Gzip), (Target::P, Fmt::Png, Comp::None), (Target::V, Fmt::Pbf, Comp::Brotli), (Target::M, Fmt::Pbf, Comp::Gzip), (Target::T, Fmt::Webp, Comp::None)] {
